@@ -515,7 +515,7 @@ func checkMVNormal(c mvnCase) *vk.Failure {
 }
 
 func TestMVNormal(t *testing.T) {
-	vk.Run(t, "mv-normal", vk.Opts{Quick: 600, Thorough: 6000}, func(t *rapid.T) mvnCase {
+	vk.Run(t, "mv-normal", vk.Opts{Quick: 1500, Thorough: 10000}, func(t *rapid.T) mvnCase {
 		c := mvnCase{Dim: vk.Dim(t, "dim", 1, 8, 2)}
 		c.Seed = uint64(rapid.IntRange(0, 1<<30).Draw(t, "seed"))
 		c.Delta = vk.F(rapid.SampledFrom([]float64{1, 1, 0.1, 1e-3}).Draw(t, "delta"))
@@ -923,6 +923,24 @@ func checkMVLight(c mvLightCase) *vk.Failure {
 				}
 			}
 			if _, ok := ms.chol(); !ok {
+				// With nu - dim + 1 < 1 the last pivot is a chi-squared variable with
+				// less than one degree of freedom and can be lost to rounding: accept
+				// a matrix that becomes positive definite after a relative 1e-10 shift.
+				trc := 0.0
+				for i := range ms {
+					trc += ms[i][i]
+				}
+				for i := range ms {
+					ms[i][i] += 1e-10 * trc
+				}
+				if _, ok2 := ms.chol(); ok2 {
+					ok = true
+				}
+				if ok {
+					s0 = append(s0, (ms[0][0]-1e-10*trc)/v[0][0])
+					s1 = append(s1, tot/vsum)
+					continue
+				}
 				fs.add(F("randsym-pd", "RandSymTo returned a matrix that is not positive definite: %v", mat.Formatted(&m)))
 				break
 			}
@@ -1002,7 +1020,7 @@ func checkMVLight(c mvLightCase) *vk.Failure {
 }
 
 func TestMVLight(t *testing.T) {
-	vk.Run(t, "mv-light", vk.Opts{Quick: 600, Thorough: 6000}, func(t *rapid.T) mvLightCase {
+	vk.Run(t, "mv-light", vk.Opts{Quick: 1500, Thorough: 10000}, func(t *rapid.T) mvLightCase {
 		c := mvLightCase{Kind: rapid.SampledFrom([]string{"StudentsT", "Uniform", "Dirichlet", "Wishart", "UniformPermutation"}).Draw(t, "kind")}
 		c.Dim = vk.Dim(t, "dim", 1, 6, 2)
 		c.Seed = uint64(rapid.IntRange(0, 1<<30).Draw(t, "seed"))
